@@ -349,7 +349,9 @@ Section Client.
       | None => if size <? n' then RdErr (size_invalid (s "blob size exceeds content length: ")) else RdMore
       | Some true => RdErr (Plain (s "read error"))
       | Some false =>
-          if negb (br_verify br) then RdEOF
+          if negb (br_verify br) then
+            (* the final bytes can arrive together with io.EOF *)
+            (if size <? n' then RdErr (size_invalid (s "blob size exceeds content length: ")) else RdEOF)
           else if negb (n' =? size) then RdErr (size_invalid (s "blob size mismatch: "))
           else if beqb (new_digest (br_alg br) seen') (d_digest (br_desc br)) then RdEOF
           else RdErr (Plain (s "digest mismatch when reading blob"))
@@ -493,12 +495,22 @@ Section Client.
     req <- new_request (start_upload_rreq repo) ;;
     r <- client_do req [202] ;;
     location <- lift (location_from_response r) ;;
-    let put := {| rq_method := MPut; rq_url := UDigest location (d_digest d);
-                  rq_header := [(h_content_range, range_string 0 (d_size d));
-                                (h_content_type, octet_stream)];
-                  rq_body := body_of_reader present rewindable data; rq_clen := d_size d |} in
-    _ <- client_do put [201] ;;
-    ret d.
+    (* the content is held to the size in the descriptor where net/http would not *)
+    if d_size d <? 0 then fail (size_invalid (s "negative size in descriptor: "))
+    else if (d_size d =? 0) && present && negb (is_empty data)   (* io.ReadFull(r, buf[:1]) *)
+    then fail (size_invalid (s "content is larger than the size 0 in the descriptor: "))
+    else
+      let present := if d_size d =? 0 then false else present in   (* r = nil *)
+      let body := body_of_reader present rewindable data in
+      if (0 <? d_size d) && (match body with BNil | BNoBody => true | BData _ _ => false end)
+      then fail (size_invalid (s "content is empty but the descriptor has a size: "))
+      else
+        let put := {| rq_method := MPut; rq_url := UDigest location (d_digest d);
+                      rq_header := [(h_content_range, range_string 0 (d_size d));
+                                    (h_content_type, octet_stream)];
+                      rq_body := body; rq_clen := d_size d |} in
+        _ <- client_do put [201] ;;
+        ret d.
 
   (* ------------------------------------------------------------ writer.go: blobWriter *)
 
